@@ -19,6 +19,7 @@ E-GRID.  Two parts, both run through the public entry points (``model.fit / pers
 from __future__ import annotations
 
 import contextlib
+import io
 import itertools
 import math
 import os
@@ -621,6 +622,9 @@ LME_CONFIGS_METHOD = [
     {"slope": True, "indep": True, "method": ["powell"]},
     {"slope": True, "indep": False, "method": ["powell"]},
     {"slope": False, "indep": False, "method": ["nm"]},
+    # ONE model object: calibrated on another cohort, used (personalize + estimate), then calibrated on this cohort
+    {"slope": False, "indep": False, "used_before": True},
+    {"slope": True, "indep": False, "used_before": True},
 ]
 N_METHOD_COHORTS = {"quick": 6, "thorough": 40}
 
@@ -680,6 +684,18 @@ def check_lme(k, cfg):
 
     # ---------------- fit (real entry point), recorded
     model = LMEModel("lme", with_random_slope_age=slope)
+    if cfg.get("used_before"):
+        tag += ", object calibrated and used before on another cohort"
+        other_train, _ = lme_cohort(k + 7)
+        try:
+            other = Data.from_dataframe(_frame(other_train), drop_full_nan=False)
+            with contextlib.redirect_stdout(io.StringIO()):
+                model.fit(other, "lme_fit", force_independent_random_effects=indep)
+                ip0 = model.personalize(other, "lme_personalize")
+                first = ip0._indices[0]
+                model.estimate({first: [61.5, 70.25, 78.0]}, ip0)
+        except Exception:  # noqa: BLE001 - the history itself is judged where cohort k + 7 is the subject
+            return f"lme:{tag}:history not available", False, problems, info
     with recording_mixedlm() as rec:
         try:
             model.fit(Data.from_dataframe(_frame(train), drop_full_nan=False), "lme_fit", force_independent_random_effects=indep, **fit_kw)
